@@ -72,6 +72,21 @@ META: dict[str, dict[str, str]] = {
         "note": "SymPy's subs protocol (_eval_subs consulted first) and ExprWithLimits' own guards are trusted." + COMMON_NOTE,
         "technique": "static analysis: binder sibling rule, role check of the evaluate comprehension after local inlining, path enumeration of the cleanup loop",
     },
+    "C11": {
+        "level": "Decides the algebraic clauses as term identities: 4s*q^2 symmetric, zero at both thresholds, equal to the Kallen function of the kinematics module; the three plain variants are 2*R(q^2)/sqrt(s) with R = sqrt / sqrt(Abs) / ComplexSqrt; ComplexSqrt's two-branch definition, its NumPy printer printing that very definition and the Python printer's two rows; the Chew-Mandelstam formula, the -i factor of the S-wave variant and the three-row case table of the equal-mass continuation against the PDG forms. The transcendental identities (Re rho for the Chew-Mandelstam variants, equal-mass equivalence, continuity) are declined, not approximated.",
+        "note": "sqrt/Abs/log/atan semantics; formal algebra at a generic positive point." + COMMON_NOTE,
+        "technique": "static analysis: term extraction with inlining of helper functions, rational-function normal form with sqrt/app atoms, case-table comparison",
+    },
+    "C12": {
+        "level": "Decides by substitution in the extracted terms: Gamma(m0^2) = Gamma0 for every phase-space factor and L (the factor is an opaque callable, L symbolic), B_L^2(1) = 1, FormFactor = sqrt(B_L^2(q^2 d^2)); by call graph that the fast polynomial path is derived from the Hankel definition in the same variable; and term equality of the builder classes' expressions with the public lineshape functions under the stated correspondence, plus the flags of the convenience builders. Threshold behaviour / boundedness are not decided.",
+        "note": "SymPy's doit().simplify()/lambdify are value preserving." + COMMON_NOTE,
+        "technique": "static analysis: term extraction of methods with struct-valued parameters, substitution and rational-function equality, call-graph single-source rule",
+    },
+    "C13": {
+        "level": "Decides the wiring: the variable set of a node (parent mass, daughter masses, angles of children[0], L with None-guarded fallbacks), the arguments the lineshape builders pass into FormFactor / EnergyDependentWidth, the parameter-default dictionaries (mass/width/radius), agreement of duplicated symbol constructions, the singledispatch registry of DynamicsSelector.assign with every implementation reaching the single store and selection by parent name over all decays, and that lookup / resonance / variables / Wigner-D refer to the same (transition, node). Re-assignment histories and custom builders are not decided.",
+        "note": "singledispatchmethod semantics; qrules TwoBodyDecay fields." + COMMON_NOTE,
+        "technique": "static analysis: AST role matching after local inlining, term extraction of builder return tuples (expression, defaults dict), registry enumeration",
+    },
     "C14": {
         "level": "Decides the structural necessary conditions of the substitution/equality/folding laws for every @unevaluated class (enumerated from the AST): reconstruction hooks read arguments shallowly and completely, self.args unpackings match the field lists, the hash hook covers non-SymPy fields, folded classes print through their unfolding. Universal over argument shapes because it speaks about the hook code, not about sampled instances. Does not decide the laws for arbitrary values.",
         "note": "External-API table: dataclasses.astuple/asdict/copy.deepcopy are deep; Basic.subs/xreplace dispatch to _eval_subs/_xreplace." + COMMON_NOTE,
